@@ -4,9 +4,11 @@
     The census objects come from Gen/CopyCensus_gen.v (regenerated from vmf.py / keyvalues.py on every run);
     the check discharges [copy_fresh_mutables census_X = true] and [copy_covers_fields census_X = true]
     per class as instance obligations, and [export_ok ... = true] for heaps exported from real objects. *)
-From Coq Require Import List PArith ZArith Bool.
+From Coq Require Import List PArith ZArith Bool String.
 From SV Require Import SM.Store SM.StoreProofs SM.StoreCert SM.StoreCertProofs SM.StoreCopy SM.StoreCopyProofs
-  SM.StoreExamples SM.KvAdd SM.KvAddProofs Gen.CopyCensus_gen.
+  SM.StoreExamples SM.KvAdd SM.KvAddProofs SM.StoreCopySrc SM.StoreCopySrcProofs SM.KvAddFresh SM.KvAddFreshProofs
+  SM.StoreCopyExport SM.StoreCopyExportProofs SM.OpPurity SM.OpPurityProofs SM.CollapseCensus SM.CollapseCensusProofs
+  Gen.CopyCensus_gen Gen.CopyExportReads_gen Gen.C09OpCensus_gen Gen.C09Collapse_gen.
 Import ListNotations.
 
 (** FRAME THEOREM.  If no mutable location is reachable both from [a] and from the roots [R] a mutator
@@ -127,3 +129,197 @@ Theorem c09_kv_iadd_extends_self : forall (A : Type) r1 r2,
   negb (recv_is_copy r1) && negb (recv_is_copy r2) = true ->
   forall single (self other : list A), kv_iadd r1 r2 single self other = (self ++ other)%list.
 Proof. exact @kv_iadd_extends_self. Qed.
+
+(** ROUND 2 — census with SOURCES.  The generated table also records from which fields of the original each
+    field of the copy is built ([sources_X]); [copy_sources_match] (instance obligation per class) demands that
+    every field that carries the original's value is built from exactly its own field.  Then the positional
+    relation [fields_rel_src] (field i of the copy comes from field [src i] of the original) is the field-by-field
+    relation of the round-1 theorems, and independence follows as before. *)
+Theorem c09_sources_fields_rel : forall h h' (c : census) (s : srcmap) orig vs',
+  copy_sources_match c s = true -> kinds_rel h c orig ->
+  fields_rel_src h h' orig (resolve c s) vs' -> fields_rel h h' (ck c) orig vs'.
+Proof. exact sources_fields_rel. Qed.
+
+Theorem c09_census_src_copy_independent : forall (c : census) (s : srcmap) h h' la lc nd nd',
+  closed h -> closed h' -> extends h h' -> h la = Some nd -> h lc = None -> h' lc = Some nd' ->
+  copy_fresh_mutables c = true -> copy_sources_match c s = true ->
+  kinds_rel h c (nfields nd) ->
+  fields_rel_src h h' (nfields nd) (resolve c s) (nfields nd') ->
+  (forall ms h'' R, steps (h', [lc]) ms (h'', R) -> forall n, unfold n h'' (VRef la) = unfold n h' (VRef la)) /\
+  (forall ms h'' R, steps (h', [la]) ms (h'', R) -> forall n, unfold n h'' (VRef lc) = unfold n h' (VRef lc)).
+Proof. exact census_src_copy_independent. Qed.
+
+(** Without the source check a census can be fresh and covered and the copy still observably wrong
+    (the shape of the seeded fault [multi_alpha=vert.multi_blend]). *)
+Theorem c09_wrong_source_observable_refuted :
+  copy_fresh_mutables ws_census = true /\ copy_covers_fields ws_census = true /\
+  copy_sources_match ws_census ws_sources = false /\ wrong_source ws_census ws_sources = ["multi_alpha"%string] /\
+  fields_rel_src ws_h ws_h' [VAtom 5%Z; VAtom 7%Z] (resolve ws_census ws_sources) [VAtom 5%Z; VAtom 5%Z] /\
+  ~ obs_eq ws_h ws_h' (VRef 1%positive) (VRef 2%positive).
+Proof. exact wrong_source_observable. Qed.
+
+Definition all_sources_match : bool :=
+  forallb (fun p => match find (fun q => String.eqb (fst q) (fst p)) all_sources with
+                    | Some q => copy_sources_match (snd p) (snd q) | None => false end) all_census.
+
+(** Keyvalues '+' / '+=': with copies appended in BOTH branches (flags read from keyvalues.py, one per append
+    site) the result is complete, the left operand unchanged, and no child of the right operand is in the
+    result; '+=' likewise. *)
+Theorem c09_kv_add_ids_fresh : forall (A : Type) (cp : A -> A) r1 r2 ret cs ci,
+  recv_is_copy r1 && recv_is_copy r2 && recv_is_copy ret = true -> cs && ci = true ->
+  forall single (self other : list A),
+    kv_add_ids cp r1 r2 ret cs ci single self other = (self, (self ++ map cp other)%list) /\
+    ((forall x y, In y other -> cp x <> y) -> forall x, In x (map cp other) -> ~ In x other).
+Proof. exact @kv_add_ids_fresh. Qed.
+
+Theorem c09_kv_iadd_ids_fresh : forall (A : Type) (cp : A -> A) r1 r2 cs ci,
+  negb (recv_is_copy r1) && negb (recv_is_copy r2) = true -> cs && ci = true ->
+  forall single (self other : list A), kv_iadd_ids cp r1 r2 cs ci single self other = (self ++ map cp other)%list.
+Proof. exact @kv_iadd_ids_fresh. Qed.
+
+Theorem c09_kv_add_single_branch_shares_refuted :
+  kv_add_ids (fun x => (x + 100)%nat) RCopy RCopy RCopy false true true [1%nat] [7%nat] = ([1%nat], [1%nat; 7%nat]) /\
+  kv_add_ids (fun x => (x + 100)%nat) RCopy RCopy RCopy false true false [1%nat] [7%nat] = ([1%nat], [1%nat; 107%nat]).
+Proof. exact kv_add_single_branch_shares_refuted. Qed.
+
+(** ROUND 2 — COMPLETENESS AS EXPORT EQUALITY.  [export_reads_X] (Gen/CopyExportReads_gen.v) = the data fields the
+    export of class X reads; the observation is the unfolding with unread / ID / context positions masked.  If
+    every observed field of the census passes [copy_export_ok] (carried over, from its own field) and the copy's
+    fields are related to the original's as the census says — shared, fresh container of the same elements, or a
+    nested copy that itself exports equally (this theorem one level down) — the copy exports like the original. *)
+Theorem c09_copy_export_equal : forall (mk : loc -> list bool) (c : census) (s : srcmap) (reads : list string)
+    h h' la lc nd nd',
+  closed h -> extends h h' -> h la = Some nd -> h' lc = Some nd' -> nmut nd' = nmut nd ->
+  mk la = obs_mask c reads -> mk lc = obs_mask c reads ->
+  List.length (nfields nd) = List.length c ->
+  copy_export_ok c s reads = true ->
+  fields_rel_c mk h h' (nfields nd) (eresolve c s reads) (nfields nd') ->
+  mobs_eq mk h h' (VRef la) (VRef lc).
+Proof. exact copy_export_equal. Qed.
+
+(** ... hence every export function that depends only on the observation yields the same text. *)
+Theorem c09_copy_export_text_equal : forall (T : Type) (mk : loc -> list bool) (E : tree -> T)
+    (c : census) (s : srcmap) (reads : list string) h h' la lc nd nd',
+  closed h -> extends h h' -> h la = Some nd -> h' lc = Some nd' -> nmut nd' = nmut nd ->
+  mk la = obs_mask c reads -> mk lc = obs_mask c reads ->
+  List.length (nfields nd) = List.length c ->
+  copy_export_ok c s reads = true ->
+  fields_rel_c mk h h' (nfields nd) (eresolve c s reads) (nfields nd') ->
+  forall n, E (munfold mk n h' (VRef lc)) = E (munfold mk n h (VRef la)).
+Proof. exact copy_export_text_equal. Qed.
+
+(** All classes at once: every census of the generated table passes [copy_export_ok] against the export reads of its
+    class (nested copies — the [HDeep] hypotheses of [c09_copy_export_equal] — are censuses of the same table). *)
+Definition lookup {A} (k : string) (l : list (string * A)) : option A :=
+  option_map snd (find (fun q => String.eqb (fst q) k) l).
+Definition all_export_ok : bool :=
+  forallb (fun p => match lookup (fst p) all_sources, lookup (fst p) class_of_label with
+                    | Some s, Some cls => match lookup cls all_export_reads with
+                                          | Some reads => copy_export_ok (snd p) s reads && reads_are_fields (snd p) reads
+                                          | None => false end
+                    | _, _ => false end) all_census.
+
+Theorem c09_all_classes_export_ok : all_export_ok = true ->
+  forall label c, In (label, c) all_census ->
+  exists s cls reads, lookup label all_sources = Some s /\ lookup label class_of_label = Some cls /\
+                      lookup cls all_export_reads = Some reads /\ copy_export_ok c s reads = true.
+Proof.
+  unfold all_export_ok. rewrite forallb_forall. intros H label c Hin. specialize (H _ Hin). cbn [fst snd] in H.
+  destruct (lookup label all_sources) as [s|] eqn:E1; [|discriminate].
+  destruct (lookup label class_of_label) as [cls|] eqn:E2; [|discriminate].
+  destruct (lookup cls all_export_reads) as [reads|] eqn:E3; [|discriminate].
+  apply andb_true_iff in H. destruct H as [H _]. exists s, cls, reads. repeat split; assumption.
+Qed.
+
+Theorem c09_copy_export_equal_not_vacuous :
+  copy_export_ok ex_census ex_src_good ex_reads = true /\
+  mobs_eq ex_mk ex_h (ex_h' 7%Z) (VRef 1%positive) (VRef 2%positive).
+Proof. exact copy_export_equal_applies. Qed.
+
+Theorem c09_copy_export_wrong_source_refuted :
+  copy_export_ok ex_census ex_src_bad ex_reads = false /\
+  export_broken ex_census ex_src_bad ex_reads = ["alpha"%string] /\
+  ~ mobs_eq ex_mk ex_h (ex_h' 5%Z) (VRef 1%positive) (VRef 2%positive).
+Proof. exact copy_export_wrong_source_refuted. Qed.
+
+(** ROUND 2 — OPERATOR PURITY (Vec / Angle / Matrix).  [op_census_X] (Gen/C09OpCensus_gen.v) lists for every operator
+    method, as inherited by each concrete class, the origins of the objects it may write and return.  A run of a
+    method none of whose stores is tagged with an operand origin leaves EVERY pre-existing object observed unchanged
+    (both operands in particular) and returns only objects that did not exist before; a run of an in-place operator
+    leaves everything separated from the receiver unchanged. *)
+Theorem c09_pure_op_frame : forall slf ps h tr h' F',
+  closed h -> trun slf ps (h, []) tr (h', F') ->
+  (forall o, In o (map snd tr) -> is_operand o = false) ->
+  (forall a, alloc h a -> forall n, unfold n h' (VRef a) = unfold n h (VRef a)) /\
+  (forall r, In r F' -> h r = None).
+Proof. exact pure_op_frame. Qed.
+
+Theorem c09_inplace_op_frame : forall slf ps h tr h' F',
+  closed h -> alloc h slf -> trun slf ps (h, []) tr (h', F') ->
+  (forall o, In o (map snd tr) -> o = OSelf \/ is_operand o = false) ->
+  forall b, alloc h b -> sep h b [slf] -> forall n, unfold n h' (VRef b) = unfold n h (VRef b).
+Proof. exact inplace_op_frame. Qed.
+
+(** The same, from a census row: [row_writes_ok] + "the row lists every origin a run can write". *)
+Theorem c09_census_pure_op_frame : forall (r : oprow) slf ps h tr h' F',
+  op_kind r = OpPure -> row_writes_ok r = true ->
+  (forall o, In o (map snd tr) -> In o (op_writes r)) ->
+  closed h -> trun slf ps (h, []) tr (h', F') ->
+  (forall a, alloc h a -> forall n, unfold n h' (VRef a) = unfold n h (VRef a)) /\
+  (forall x, In x F' -> h x = None).
+Proof. exact census_pure_op_frame. Qed.
+
+Theorem c09_census_inplace_op_frame : forall (r : oprow) slf ps h tr h' F',
+  op_kind r = OpInplace -> row_writes_ok r = true ->
+  (forall o, In o (map snd tr) -> In o (op_writes r)) ->
+  closed h -> alloc h slf -> trun slf ps (h, []) tr (h', F') ->
+  forall b, alloc h b -> sep h b [slf] -> forall n, unfold n h' (VRef b) = unfold n h (VRef b).
+Proof. exact census_inplace_op_frame. Qed.
+
+(** Every pure-operator row of the generated census passes, for all three families at once. *)
+Theorem c09_all_ops_pure : ops_store_nothing_to_operands op_census_all = true ->
+  forall r, In r op_census_all -> op_kind r = OpPure -> forall o, In o (op_writes r) -> is_operand o = false.
+Proof.
+  unfold ops_store_nothing_to_operands. rewrite forallb_forall. intros H r Hr Hk.
+  apply writes_ok_pure; [exact Hk|]. apply H. apply filter_In. split; [exact Hr|]. rewrite Hk. reflexivity.
+Qed.
+
+(** What the census rejects is a real change of an operand. *)
+Theorem c09_operand_write_observable_refuted :
+  row_writes_ok (mkop "Vec.__add__" OpPure true [OParam] [OParam]) = false /\
+  exists h', trun 1%positive [2%positive] (op_h, []) [(MStore 2%positive [VAtom 3%Z], OParam)] (h', []) /\
+             unfold 1 h' (VRef 2%positive) <> unfold 1 op_h (VRef 2%positive).
+Proof. exact operand_write_observable. Qed.
+
+(** ROUND 2 — INSTANCING.  [collapse_writes] / [collapse_enters] / [collapse_copies] (Gen/C09Collapse_gen.v) classify
+    every store, every value entering a non-local object and every copy in instancing.collapse_one.  A run whose
+    stores and stored values are never tagged [CTemplate] leaves a template that shared no mutable object with the
+    target beforehand observed unchanged, at every depth (collapse_one is an in-place operator on the target with the
+    template as a read-only operand; the copies it makes are fresh by the copy census of VisGroup, Solid, Entity). *)
+Theorem c09_collapse_template_frame : forall tgt tmpl h tr h' F',
+  closed h -> alloc h tgt -> alloc h tmpl -> sep h tmpl [tgt] ->
+  crun tgt tmpl (h, []) tr (h', F') -> forallb event_clean tr = true ->
+  forall n, unfold n h' (VRef tmpl) = unfold n h (VRef tmpl).
+Proof. exact collapse_template_frame. Qed.
+
+Theorem c09_census_collapse_template_frame : forall (W E : list (string * corigin)) tgt tmpl h tr h' F',
+  collapse_never_writes_template W = true -> collapse_only_copies_enter E = true ->
+  (forall e, In e tr -> (exists s, In (s, snd (fst e)) W) /\ forall vo, In vo (snd e) -> exists s, In (s, vo) E) ->
+  closed h -> alloc h tgt -> alloc h tmpl -> sep h tmpl [tgt] ->
+  crun tgt tmpl (h, []) tr (h', F') ->
+  forall n, unfold n h' (VRef tmpl) = unfold n h (VRef tmpl).
+Proof. exact census_collapse_template_frame. Qed.
+
+Theorem c09_collapse_template_write_refuted :
+  collapse_never_writes_template [("old_brush.localise(...)"%string, CTemplate)] = false /\
+  exists h', crun 1%positive 2%positive (cl_h, []) [(MStore 2%positive [VAtom 128%Z], CTemplate, [CScalar])] (h', []) /\
+             unfold 1 h' (VRef 2%positive) <> unfold 1 cl_h (VRef 2%positive).
+Proof. exact collapse_template_write_observable. Qed.
+
+Theorem c09_collapse_template_enter_refuted :
+  collapse_only_copies_enter [("old_brush -> vmf.add_brush"%string, CTemplate)] = false /\
+  exists h1 h2,
+    crun 1%positive 2%positive (cl_h, []) [(MStore 1%positive [VRef 2%positive], CTarget, [CTemplate])] (h1, []) /\
+    steps (h1, [1%positive]) [MStore 2%positive [VAtom 128%Z]] (h2, [1%positive]) /\
+    unfold 1 h2 (VRef 2%positive) <> unfold 1 cl_h (VRef 2%positive).
+Proof. exact collapse_template_enter_observable. Qed.
